@@ -2,6 +2,7 @@ mod c09;
 mod c10;
 mod common;
 mod detectors;
+mod dirs;
 mod layout;
 mod report;
 
@@ -46,6 +47,16 @@ fn main() {
             // report-replay <behaviours> <k renderings> <random maps> <trace>
             let mut w = NdjsonWriter::new(&a(5));
             report::replay(&a(2), a(3).parse().unwrap_or(8), a(4).parse().unwrap_or(0), &mut w, &mut out);
+            w.finish();
+        }
+        "dir-replay" => {
+            // dir-replay <behaviours> <scratch> <with_pruned 0|1> <corpus> <random count> <trace>
+            let mut w = NdjsonWriter::new(&a(7));
+            let pruned = a(4) == "1";
+            if a(2) != "-" {
+                dirs::replay(&a(2), &a(3), pruned, &mut w, &mut out);
+            }
+            dirs::random(&a(5), &a(3), a(6).parse().unwrap_or(0), pruned, &mut w, &mut out);
             w.finish();
         }
         _ => usage(),
